@@ -106,7 +106,7 @@ class PoolRun(object):
                 run.outcomes[tid] = ("ret", obj)
                 return obj
             finally:
-                s.emit("task.end", tid)
+                s.emit("task.end", tid, s.now)
 
         task.__name__ = "task_%s" % tid
         if shape == "partial":
